@@ -146,6 +146,37 @@ CLAIMED.update({
     ),
 })
 
+CLAIMED.update({
+    "C07": (
+        "role-swap symmetry on value-numbered kernel terms under assumed rank relations (3-point order domain) in polynomial normal form",
+        "other",
+        "For the four pairwise models the omega increment of team i against q divided by team i's variance is the negation of the mirrored, role-exchanged increment (symmetric scale, "
+        "complementary score table/expectation, Gaussian correction at the mirrored argument); the callback never reaches omega; for Plackett-Luce the normaliser is filled over exactly the set "
+        "it is applied to, with the same exponential and one tie divisor per normaliser. Necessary conditions of the zero-sum identity; the floating-point residual and the symmetry of "
+        "_ladder_pairs' neighbour relation are not decided.",
+        "Trusted: osv/ai, osv/poly.py; v/w/vt/wt/phi_major as uninterpreted functions. Accumulator roles are found by data flow.",
+        "DESIGN.md §5 C07",
+    ),
+    "C08": (
+        "interval abstract interpretation (absence of run-time errors) with bounded loop iteration over symbolic length ranges",
+        "other",
+        "At every partial-operation site reachable from rate/predict_* (division, sqrt, non-integer power, exp, inverse CDF, reduce/max of a sequence) the operand is proven inside the "
+        "operation's domain on the declared input box, and every stored/returned number has finite bounds. Sound over the reals for the whole box; rounding is not modelled.",
+        "Box: 2..8 teams, 1..16 players, |mu| <= 20 beta, sigma in [1e-4 beta, 10 beta] (0 only with tau > 0), tau <= 10 beta, kappa in (0, 1e-2], callback in [0, 1e6]; beta normalised to 1 by C16. "
+        "Named lemmas (L-A reflexive tie count, L-SHARE member share <= 1, L-PL softmax <= 1) are discharged by structural rules and listed in the evidence.",
+        "DESIGN.md §5 C08",
+    ),
+    "C17": (
+        "numeric-stability lint by abstract interpretation of the resolved CDF call chain (followed into the stdlib source) + interval analysis of v, w, vt, wt",
+        "other",
+        "The CDF primitive reached from phi_major forms no value as constant +/- saturating-function whose interval reaches 0 (the cancelling asymptote that destroys lower-tail relative accuracy); "
+        "v >= 0, every quotient is evaluated only where its guard's negation bounds the denominator away from 0, w uses v only on v's exact branch, all four functions are finite on the sweep box. "
+        "Partial claim: the accuracy figures and w, wt in [0, 1] are not decided.",
+        "Trusted: osv/ai interval domain and monotonicity axioms; role assumption that phi_major is the normal CDF.",
+        "DESIGN.md §5 C17",
+    ),
+})
+
 NOT_APPLICABLE = {
     "C01": "numeric equality (1e-9) with published closed forms over a continuous input box: no sound static "
     "argument in reach; its structural necessary conditions are decided under C02/C03/C05/C06/C07/C16/C19",
